@@ -673,6 +673,14 @@ def uf_exp(x):
         v = math.exp(float(a.as_fraction()))
         return v
     app = _EXP(a)
+    for (a2, app2) in c.uf_terms.get("exp", []):
+        # exp(x) * exp(-x) = 1 for syntactically opposite arguments (links the two branches of the canopy growth curve)
+        z = z3.simplify(a + a2)
+        if _isnum(z) and z.as_fraction() == 0 and a2.get_id() != a.get_id():
+            k = ("exppair", min(a.get_id(), a2.get_id()), max(a.get_id(), a2.get_id()))
+            if k not in c.nl_pairs:
+                c.nl_pairs.add(k)
+                c.add(app * app2 == 1)
     if _register("exp", a, app, +1):
         c.add(app > 0, app >= 1 + a,
               z3.Implies(a == 0, app == 1), z3.Implies(a > 0, app > 1), z3.Implies(a < 0, app < 1))
@@ -1090,6 +1098,7 @@ class Ctx:
         self.anchor_done = set()
         self.anchors_dirty = False
         self.nl_seen = {}
+        self.nl_pairs = set()
         self.defs = {}
         self.inputs = {}      # name -> z3 const (declared symbolic inputs)
         self.input_kind = {}
@@ -1501,7 +1510,9 @@ class ConcCtx:
 
     def assume(self, cond):
         if not builtins.bool(cond):
-            raise AssumptionFailed("assumption false on concrete inputs")
+            import traceback
+            fr = traceback.extract_stack(limit=3)[0]
+            raise AssumptionFailed(f"assumption false on concrete inputs at {fr.filename.split('/')[-1]}:{fr.lineno}")
 
     def add(self, *c):
         for x in c:
